@@ -17,15 +17,15 @@ LEVEL_TEXT = ('Lean 4 theorems about the model of propagate_fft, for all fields,
               'wavelength makes alpha = 1/S; dft2 of the padded grid = sum of per-field dft2 with offsets); the result with a sufficient '
               'scratch of any size/content equals the result without; a buffer of exactly fft_shape is accepted, smaller ones, shapes with '
               'shape > fft_shape/oversample (float comparison, proved equivalent to shape·oversample > fft_shape) and wavefronts in which ANY field '
-              'carries tilt are refused; scratch_shape is the grid at max(wavelength) and suffices for every smaller wavelength; metadata carried. '
+              'carries tilt are refused; scratch_shape is the grid at max(wavelength) and suffices for every smaller wavelength (scratch_shape_monotone_real: unconditional at R, '
+              'the monotonicity of round-half-even is proved, roundEven_real_mono); metadata carried. '
               'Regenerated from propagate.py/util.py: scratch slice regions, the _has_tilt fold, _dft_alpha, the _fft_shape call site and reported '
               'wavelengths, both shape branches and guards, the scratch guard, the metadata hand-over, scratch_shape\'s call, the pad index block, and the _fft2 '
               'composition (which shift is applied inside/outside and the norm= keyword are read from the source: Gen.fft2InnerIdx/fft2OuterIdx/fft2Norm, '
               'fft2_composition proves they are ifftshift / fftshift / ortho). propagateFft_scale_covariant: scaling every length by k>0 leaves the whole outcome '
-              '(accepted field data and extents, or the same refusal) unchanged and multiplies the reported wavelength by k. The oracle also checks that a '
+              '(accepted field data and extents, or the same refusal) unchanged and multiplies the reported wavelength by k (for 0 < k; min(ka, kb) = k min(a, b) is proved, fft_scale_invariant_real / propagateFft_scale_covariant_real carry no other hypothesis). The oracle also checks that a '
               'caller\'s scratch buffer is untouched outside the fft_shape corner after the call.')
-LEVEL_NOTE = ('Partial: np.fft.fft2/fftshift/ifftshift and np.round/np.min/np.max enter through their documented contracts (not verified; which of them _fft2 composes and in which order IS regenerated; the '
-              'monotonicity of the rounding is a hypothesis of scratch_shape_monotone); oversample is an integer in the model and theorems — float '
+LEVEL_NOTE = ('Partial: np.fft.fft2/fftshift/ifftshift and np.round/np.min/np.max enter through their documented contracts (not verified; which of them _fft2 composes and in which order IS regenerated; the real-number round-half-even and min are the instances the theorems are proved at); oversample is an integer in the model and theorems — float '
               'oversample is exercised by the oracle only (known finding KF-C09-float-oversample-explicit-shape); anisotropic dx·du whose per-axis wavelengths DIFFER is excluded by '
               'hypothesis (KF-C09-fft-anisotropic-wavelength; consistent per-axis grids are covered). Trusted: Lean kernel, py2lean subset semantics, generator coverage.')
 TECHNIQUE = 'Lean 4 proof (finite-sum reindexing, omega) over hand model with differential correspondence at Float'
@@ -42,7 +42,8 @@ TRUSTED = ['np.fft.fft2(norm="ortho") = unitary DFT with origin at index 0; np.f
            'np.round = round-half-even; lentil.field.insert as modelled by insertArr (C06)']
 UNPROVEN = ['float (non-integer) oversample: outside the model; explicit shapes then end in TypeError (known finding)',
             'anisotropic dx*du with different per-axis wavelengths (known finding): a single reported wavelength cannot describe both grids']
-ASSUMPTIONS = ['scratch buffers are complex128 arrays (contiguous or strided views): a complex64 / real buffer would store the padded field at lower precision or drop its '
+ASSUMPTIONS = ['the wavefront has a plane type (pupil/image): an untyped wavefront ends in TypeError from _propagate_ptype before the shape guard (C08 models it; not an outcome of the C09 model, not generated)',
+               'scratch buffers are complex128 arrays (contiguous or strided views): a complex64 / real buffer would store the padded field at lower precision or drop its '
                'imaginary part, so "scratch transparent" is only claimed for buffers of the working dtype; such buffers are not generated',
                'pupil (wavefront.shape) no larger than the FFT grid; isotropic dx*du for the FFT = DFT clause; integer oversample >= 1 in model and '
                'theorems (float oversample: oracle only, shape=None works, explicit shapes are an open known finding)']
